@@ -400,6 +400,7 @@ pub fn run_check(id: &str, tier: &str, seed: u64) -> i32 {
     };
     let ft = "enumeration: canonical payments with one crash at every step and/or one write fault at every datastore write (exhaustive for the stated bound), plus random seeded hostile runs with crashes, restarts and faults; a case is one history; distinct_nontrivial = number of distinct abstract traces (sequence of (step kind, durable record, parts-status multiset, held count)) among histories in which a target rule was actually evaluated";
     match id {
+        "C12" | "C18" => crate::checks_pure::run_pure_check(id, tier, seed),
         "C02" => fe(&[Crashy, Mixed, Reject], &["R02"], n(30_000, 1_500_000), ft),
         "C05" => fe(&[Crashy, Mixed], &["R05"], n(30_000, 1_500_000), ft),
         "C08" => fe(&[Crashy, Mixed], &["R08a", "R08c"], n(30_000, 1_500_000), ft),
